@@ -22,7 +22,12 @@ Genuine defect found (open, cannot be repaired without editing the suite: test_p
 asserts the deviating count): with >= 30 non-relay paths and k inactive ones the code keeps max(k-10, 0) of
 the newest instead of min(k, 10); see known_findings.d/C23.json and proposed_fixes/C23.diff.
 
-Mutation self-test: see the end of this docstring once run (pending).
+Self-tests run on 2026-09-22 (in a private snapshot copy of /repo built with the same harness sources, so that the
+shared /repo did not have to be touched; patches in seeded/remote/):
+  * proposed_fixes/C23.diff applied -> exit 0, 2048 cases, no KNOWN-FINDING line (and C22's consequence vanishes too);
+  * mutation `PathStatus::Unusable | PathStatus::Unknown => failed.push(..)` (Unknown paths pruned, DESIGN §12)
+    -> VIOLATION sig {kind: clause_false, clauses: livekept} (not absorbed by the known finding); reverted -> exit 0
+    with only the KNOWN-FINDING line.
 """
 import json
 
